@@ -41,9 +41,9 @@ def _loads(nodes) -> Counter:
     return c
 
 
-def _fingerprint(stmts, live, whole=False):
+def _fingerprint(stmts, live, whole=False, captured=None):
     nested: set = set()
-    ps = summarise_block(stmts, live=live, nested_asserts=nested)
+    ps = summarise_block(stmts, live=live, nested_asserts=nested, captured=captured)
     if ps is None:
         return None
     # falling off the end of a function is `return None`
@@ -71,6 +71,15 @@ class Equiv:
         self.cur_fn, self.ref_fn = cur_fn, ref_fn
         self.loads_cur = _loads([cur_fn])
         self.loads_ref = _loads([ref_fn])
+        # names read by nested functions/lambdas of either version: their bindings are events (see hsa/paths.py)
+        self.captured = {
+            n.id
+            for fn in (cur_fn, ref_fn)
+            for d in ast.walk(fn)
+            if d is not fn and isinstance(d, (*FuncT, ast.Lambda))
+            for n in ast.walk(d)
+            if isinstance(n, ast.Name) and isinstance(n.ctx, ast.Load)
+        }
 
     def live_outside(self, seg_cur, seg_ref) -> set[str]:
         a = self.loads_cur - _loads(seg_cur)
@@ -95,8 +104,8 @@ class Equiv:
             return True
         if _size(A) + _size(B) <= 120:
             live = set() if whole else self.live_outside(A, B)
-            fb = _fingerprint(B, live, whole)
-            fa = _fingerprint(A, live, whole) if fb is not None else None
+            fb = _fingerprint(B, live, whole, self.captured)
+            fa = _fingerprint(A, live, whole, self.captured) if fb is not None else None
             if fa is not None and fb is not None:
                 # different as a whole: a piecewise comparison cannot succeed either
                 return _same(fa, fb)
@@ -136,7 +145,7 @@ class Equiv:
             if isinstance(a, FuncT):
                 return Equiv(a, b).function()
         live = self.live_outside(segA, segB)
-        return _same(_fingerprint(segA, live, tail), _fingerprint(segB, live, tail))
+        return _same(_fingerprint(segA, live, tail, self.captured), _fingerprint(segB, live, tail, self.captured))
 
 
 def _same_args(a: ast.arguments, b: ast.arguments) -> bool:
